@@ -71,7 +71,7 @@ def gen_case(ctx: Ctx, backend: str, s, i: int) -> Optional[diff.Case]:
     names = list(s["collections"])
     seqs = [n for n in names if s["collections"][n]["element"] is not None]
     singles = [n for n in names if s["collections"][n]["element"] is None]
-    form = R.choice(["one", "two", "three", "same_equal", "same_different", "object_rows", "nested", "singleton", "absent", "where"])
+    form = R.choice(["one", "two", "three", "same_equal", "same_different", "object_rows", "nested", "singleton", "absent", "where", "shared_variable", "shared_variable"])
     banks = R.sample(BANK_ALPHABET, 3)
     used: List[Tuple[str, str]] = []
 
@@ -98,6 +98,14 @@ def gen_case(ctx: Ctx, backend: str, s, i: int) -> Optional[diff.Case]:
         q = f"ds.Select(lambda e: {use(c1, banks[0])}.Select(lambda x: {use(c2, banks[1])}.Where(lambda y: y.{val(c2)}() > x.{val(c1)}()).Count()))"
     elif form == "where":
         q = f"ds.Where(lambda e: {use(c1, banks[0])}.Count() > 0).Select(lambda e: {use(c2, banks[1])}.Count())"
+    elif form == "shared_variable":
+        # ONE call site bound to a variable that is then used in several scopes (arms of a conditional, operands of and/or, columns)
+        v = val(c1)
+        body = R.choice([f"ms.Count() if {R.choice(['1 > 0', '2 < 1'])} else ms.Count() + 1",
+                         f"(ms.Count(), ms.Select(lambda x: x.{v}()), ms.Where(lambda x: x.{v}() > 1.0).Count())",
+                         f"ms.Select(lambda x: x.{v}()).Sum() if ms.Count() > 1 else ms.Count() * 1.0",
+                         f"(ms.Count() > 0 and ms.Where(lambda x: x.{v}() > 0.0).Count() > 0) or ms.Count() == 0"])
+        q = f"ds.Select(lambda e: {use(c1, banks[0])}).Select(lambda ms: {body})"
     elif form == "singleton":
         if not singles:
             return None
@@ -156,10 +164,14 @@ def check_requests(c: diff.Case, r: Dict[str, Any]) -> Optional[str]:
         b = run["book"][0]
         cons = b.get("consumes", [])
         uses = len(used)
-        if len(cons) != uses:
+        # one token per use: a call site the normaliser copied into two places counts as two uses, so only a LOWER bound on the
+        # number of tokens follows from the query text; every token must carry a (type, bank) the query names
+        if len(cons) < uses:
             return f"{len(cons)} tokens initialised for {uses} collection uses: {cons}"
-        if sorted((x["ctype"], x["bank"]) for x in cons) != sorted((s["collections"][n]["container"], bb) for n, bb in used):
+        if {(x["ctype"], x["bank"]) for x in cons} != {(s["collections"][n]["container"], bb) for n, bb in used}:
             return f"tokens initialised with {[(x['ctype'], x['bank']) for x in cons]}, the query uses {used}"
+        if len({x["serial"] for x in cons}) != len(cons):
+            return f"a token was initialised twice: {cons}"
         # every getByToken must be served by the token initialised with that very bank: TOKEN_USE serial -> CONSUMES record -> following RETRIEVE
         by_serial = {x["serial"]: x for x in cons}
         for k, ev in run["events"].items():
@@ -245,6 +257,29 @@ def run(ctx: Ctx) -> int:
             if c is not None:
                 cases.append(c)
                 k += 1
+    # one call site whose FIRST use lies inside one arm of a conditional and whose second use lies in the sibling arm
+    for b in sch.BACKENDS:
+        s = schemas[b]
+        main = s["main"]["coll"]
+        other = [n for n, c in s["collections"].items() if c["element"] is not None and n != main][0]
+        v1, v2 = num_member(s, s["collections"][main])[0], num_member(s, s["collections"][other])[0]
+        fixed_forms = [
+            (f"ds.Select(lambda e: e.{main}('A')).Select(lambda ms: ms.Count() if 1 > 0 else ms.Count() + 1)", [(main, "A")]),
+            (f"ds.Select(lambda e: e.{main}('A')).Select(lambda ms: ms.Count() + 1 if 2 < 1 else ms.Select(lambda x: x.{v1}()).Sum())", [(main, "A")]),
+            (f"ds.Select(lambda e: (e.{main}('A'), e.{other}('O'))).Select(lambda t: t[0].Count() if t[1].Count() > 0 else t[0].Count() + 1)", [(main, "A"), (other, "O")]),
+            (f"ds.Select(lambda e: {{'a': e.{main}('A'), 'b': e.{other}('O')}}).Select(lambda d: d.a.Select(lambda x: x.{v1}()).Sum() if d.b.Count() > 1 else d.a.Count() * 1.0)", [(main, "A"), (other, "O")]),
+            (f"ds.Select(lambda e: (e.{main}('A'), e.{other}('O'))).Select(lambda t: (t[1].Count() > 0 and t[0].Count() > 0) or t[0].Count() > 5)", [(main, "A"), (other, "O")]),
+        ]
+        for k, (q, used) in enumerate(fixed_forms):
+            evs = []
+            for j in range(4):
+                RR = ctx.rng("c06sib", b, k, j)
+                evs.append({"banks": [{"coll": n, "bank": bk, "objs": [evgen.gen_obj(s, s["collections"][n]["element"], RR, 1) for _ in range(RR.choice([0, 1, 2, 3]))]} for n, bk in used]})
+            md = diff.members_used(s, q)
+            for n in {n for n, _ in used}:
+                if not s["collections"][n].get("builtin", False):
+                    md.append(declaration(b, n, s["collections"][n]))
+            cases.append(diff.Case(b, q, evs, md, schema=s, tag={"form": f"shared_variable_sibling_scopes_{k}", "used": used, "absent": None}))
     # the same executor first handles a query whose metadata REPLACES / declares collections, then a plain query: the plain
     # query must still fetch the built-in collections (declarations live for one query only)
     for b in sch.BACKENDS:
